@@ -474,7 +474,10 @@ where
             let this = self.as_mut().project();
             (
                 this.flags.contains(Flags::DRAINING),
+                // when later requests are already queued, `payload` is the body of one of them and
+                // says nothing about the request being answered
                 !is_upgrade
+                    && this.messages.is_empty()
                     && should_close_for_unread_payload(
                         this.payload.as_ref(),
                         *this.payload_drainable,
@@ -524,7 +527,10 @@ where
             let this = self.as_mut().project();
             (
                 this.flags.contains(Flags::DRAINING),
+                // when later requests are already queued, `payload` is the body of one of them and
+                // says nothing about the request being answered
                 !is_upgrade
+                    && this.messages.is_empty()
                     && should_close_for_unread_payload(
                         this.payload.as_ref(),
                         *this.payload_drainable,
